@@ -430,6 +430,36 @@ def search(ctx):
         ctx.count('oracle_runs'); ctx.count('oracle:' + pert['kind'])
         if msg:
             ctx.fail(dict(oracle='perturbation', kind=pert['kind']), msg, dict(kind='pert', cfg=cfg, pert=pert))
+    search_zoo(ctx)
+
+
+def search_zoo(ctx):
+    """ every zoo configuration as a base, with one null perturbation each (rotating through the kinds that apply) """
+    from harness import zoo
+    kinds = ['ghost_intervention', 'ghost_analyzer', 'ghost_connector', 'ghost_network', 'extra_disease']
+    for i, (name, cfg) in enumerate(zoo.configs()):
+        kind = kinds[(i + ctx.seed) % len(kinds)]
+        pert = dict(kind=kind)
+        if kind == 'ghost_network':
+            free = [t for t in ('static', 'mf', 'erdosrenyi') if t not in {n['type'] for n in cfg['networks']}]
+            if not free or not cfg['diseases'] or any(isinstance(d.get('beta'), dict) or d['type'] not in ('sir', 'sis') for d in cfg['diseases']) or any(n['type'] == 'agepools' for n in cfg['networks']):
+                kind = 'ghost_analyzer'; pert = dict(kind=kind)
+            else:
+                pert.update(net=free[0], first=(i % 2 == 0))
+        if kind.startswith('ghost') and kind != 'ghost_network':
+            pert.update(fams=[FAMS[(i + j) % len(FAMS)] for j in range(3)], name=['ghost', 'zz_probe', 'a_probe'][i % 3], second=False, hold_ref=(i % 2 == 0),
+                        reset_pars=(i % 3 == 0), in_pars=(i % 4 == 0), own_dt=None)
+        if kind == 'extra_disease':
+            pert.update(type=['sis', 'sir'][i % 2], name=['ghostdis', 'aaa', 'zzz'][i % 3], beta=0, first=(i % 2 == 0))
+            if not cfg['networks'] or any(n['type'] == 'agepools' for n in cfg['networks']) or any(isinstance(d.get('beta'), dict) for d in cfg['diseases']):
+                pert = dict(kind='ghost_analyzer', fams=['normal', 'expon'], name='ghost', second=False, hold_ref=True, reset_pars=False, in_pars=False, own_dt=None)
+        try:
+            msg = oracle(cfg, pert)
+        except Exception as e:
+            ctx.count('zoo_exceptions'); ctx.notes['last_zoo_exception'] = f'{name} + {pert["kind"]}: {type(e).__name__}: {e}'; continue
+        ctx.count('zoo_runs')
+        if msg:
+            ctx.fail(dict(oracle='perturbation', kind=pert['kind']), f'[zoo:{name}] ' + msg, dict(kind='pert', cfg=cfg, pert=pert))
 
 
 def replay(ctx, data):
